@@ -230,22 +230,29 @@ class FileResolver:
                 rel = resolved.relative_to(base).as_posix()
             except ValueError:
                 continue
-            # Git tests a pattern against the entry itself. A pattern that matches one of the
-            # entry's directories (`build/`, `!build/`) was applied to that directory when it
-            # was visited, so it says nothing more about what is inside it. A trailing `/**`
-            # matches everything inside a directory but not the directory itself.
+            # Git tests a pattern against the entry itself, while pathspec also reports a match
+            # when a pattern matches one of the entry's directories. Such a pattern (`build/`,
+            # `!build/`) was applied to that directory when it was visited and says nothing
+            # more about what is inside it.
+            name = rel.rpartition("/")[2] + ("/" if is_dir else "")
             parent = rel.rpartition("/")[0]
             for pattern in reversed(spec.patterns):
                 if pattern.include is None:
                     continue
-                inside_only = str(pattern.pattern).rstrip().endswith("/**")
-                target = rel + "/" if is_dir and not inside_only else rel
-                if pattern.match_file(target) is None:
-                    continue
-                if parent and not inside_only and pattern.match_file(parent + "/") is not None:
-                    continue
-                ignored = pattern.include
-                break
+                text = str(pattern.pattern).strip().removeprefix("!")
+                if text.endswith("/**"):
+                    # Everything inside a directory, but not the directory itself.
+                    hit = pattern.match_file(rel) is not None
+                elif "/" not in text.rstrip("/"):
+                    # A pattern without a slash is matched against the entry's name.
+                    hit = pattern.match_file(name) is not None
+                else:
+                    hit = pattern.match_file(rel + "/" if is_dir else rel) is not None and not (
+                        parent and pattern.match_file(parent + "/") is not None
+                    )
+                if hit:
+                    ignored = pattern.include
+                    break
         return ignored
 
     def _get_gitignore_chain(
